@@ -1,8 +1,8 @@
 (* Extract.v — extraction of the executable model and observers to OCaml.
    Only ExtrOcamlBasic: bool/option/unit/list/prod/sumbool map to OCaml natives; Z, positive,
    N, nat stay the extracted inductive types.  No Extract Constant of our own. *)
-Require Import Inst.
+Require Import Inst Reent.
 Require Extraction.
 Require Import ExtrOcamlBasic.
 Extraction Language OCaml.
-Extraction "model.ml" step_u step_n init_state snap_of parse_string_result observer_u observer_n dontcare_equiv decode hex_ok cfg_of.
+Extraction "model.ml" step_u step_n init_state snap_of parse_string_result observer_u observer_n dontcare_equiv decode hex_ok cfg_of step_reent_u step_reent_n rtab_of.
